@@ -113,7 +113,8 @@ def summary (g : G) (s : State) : String :=
   let lo := "".intercalate (ls.map fun l => toString (s.loads l))
   let ev := "".intercalate (ls.map fun l => toString (s.evals l))
   let pub := (ls.filter fun l => (s.waiting l).isSome).length
-  s!"res={res} st={st} err={er} cyc={cy} loads={lo} evals={ev} free={g.P.cap - s.capacity} pub={pub}"
+  let ord := if s.order.isEmpty then "-" else labels s.order
+  s!"res={res} st={st} err={er} cyc={cy} loads={lo} evals={ev} free={g.P.cap - s.capacity} pub={pub} order={ord}"
 
 def allDone (g : G) (s : State) : Bool :=
   s.isDone && (List.range g.n).all fun l => match s.pc l with | none => true | some p => p == .done
